@@ -459,8 +459,9 @@ def check_scaling(out, sub, op, X, y):
     return True
 
 
-def scale_classes(out, case, sizes=()):
-    """class counters for the target magnitude and the component-grid sizes reached"""
+def scale_classes(out, case, sizes=(), m=0):
+    """class counters for the target magnitude, the component-grid sizes reached and the size m*N*d of the hat evaluation
+    (training samples x grid points x dimension) of the largest grid"""
     s_ = float(case.get("yscale", 1.0))
     out.cls("target-scale=%g" % s_)
     if case.get("yoff"):
@@ -472,6 +473,12 @@ def scale_classes(out, case, sizes=()):
             out.cls("grid>100&target-scale<=1e-6")
     if big > 200:
         out.cls("grid>200")
+    work = int(m) * int(big) * int(case["d"])
+    out.info["max_m_N_d"] = max(out.info.get("max_m_N_d", 0), work)
+    if work > 2 ** 18:
+        out.cls("m*N*d>2^18", "m*N*d>2^18, m %s a multiple of 256" % ("is" if m % 256 == 0 else "is not"))
+    if work > 2 ** 20:
+        out.cls("m*N*d>2^20")
     if any(abs(np.log10(abs(b))) >= 3 or abs(a) >= 1e3 for a, b in case.get("aff", [])):
         out.cls("unusual-feature-units")
 
@@ -553,7 +560,7 @@ def run_uniform_direct(case):
         out.cls("more-basis-functions-than-samples")
     if causes:
         out.cls("gram-known-defect")
-    scale_classes(out, case, [npts])
+    scale_classes(out, case, [npts], len(y))
     out.info.update(max_basis=A_ref.shape[1], max_dim=case["d"])
     return _finish(out)
 
@@ -596,7 +603,7 @@ def run_dimwise_direct(case):
         out.cls("sample-within-rounding-below-node")
     if causes:
         out.cls("gram-known-defect")
-    scale_classes(out, case, [A_ref.shape[1]])
+    scale_classes(out, case, [A_ref.shape[1]], len(y))
     out.info.update(max_basis=A_ref.shape[1], max_dim=case["d"])
     return _finish(out)
 
@@ -715,7 +722,7 @@ def run_train(case):
             "calls-per-object=%d" % len(calls), "sequence=" + "".join(seq), "grids=%d" % min(grids, 6))
     if not any(c["noisy"] for c in calls):
         out.cls("exact-targets")
-    scale_classes(out, case, [nb])
+    scale_classes(out, case, [nb], ntrain)
     out.info.update(max_basis=nb, max_dim=case["d"], max_grids=grids, max_train=ntrain, max_calls_per_object=len(calls))
     return _finish(out)
 
@@ -951,13 +958,42 @@ def _lam_matrix(draw):
     return dict(lam=draw(st.sampled_from(LAMBDAS)), matrix=draw(st.sampled_from(["C", "C", "I"])))
 
 
+def _many_samples(draw, d, lo, hi):
+    """bulk data set (seeded uniform points, one of the target families) with MANY samples relative to the grid; the count is a
+    drawn integer or a multiple of a power of two"""
+    n = draw(st.one_of(st.integers(lo, hi), st.integers(-(-lo // 256), hi // 256).map(lambda k: 256 * k),
+                       st.sampled_from([v for v in (512, 1024, 2048, 4096, 8192, 16384, 32768) if lo <= v <= hi] or [lo])))
+    gen = dict(n=n, mode=draw(st.sampled_from(TARGET_MODES)), corner=[draw(st.integers(0, 1)) for _ in range(d)],
+               width=draw(st.sampled_from([0.15, 0.25, 0.35, 0.5])), offset=draw(st.sampled_from([0.0, 0.0, 2.0])))
+    return dict(d=d, gen=gen, **_units(draw, d))
+
+
+# (level vector, sample range): m * N * d between 3e5 and 2e6, i.e. 2-8 blocks of a 2**18-entry hat evaluation
+MANY_DIRECT = [([4, 4], 600, 3000), ([3, 5], 650, 2000), ([5, 3], 650, 2000), ([6], 4200, 12000), ([7], 2100, 9000), ([3, 3], 2700, 12000),
+               ([2, 2], 15000, 40000), ([3, 3, 2], 600, 4500), ([2, 2, 2], 3300, 12000), ([4, 3], 1300, 5000)]
+# (d, lmin, lmax, range of the data-set size): the training part is (1-pct)*0.85 of it
+MANY_TRAIN = [(2, 4, 4, 900, 3200), (2, 3, 5, 1000, 2000), (1, 6, 6, 6500, 16000), (1, 7, 7, 3200, 9000), (2, 3, 3, 4200, 12000),
+              (2, 1, 6, 2000, 4500), (3, 2, 4, 950, 2500), (1, 1, 6, 6500, 14000)]
+
 BIG_LEVELVECTORS = [[7], [4, 3], [3, 4], [3, 3, 2], [2, 3, 3], [4, 4], [5, 3]]      # 127, 105, 105, 147, 147, 225, 217 points
 
 
 def uniform_direct_strategy(tier):
     @st.composite
     def s(draw):
-        if draw(st.integers(0, 19)) == 0:        # one case in twenty: a component grid with more than 100 points
+        pick = draw(st.integers(0, 19))
+        if pick == 1:        # one case in twenty: many samples relative to the grid (m*N*d in 3e5 .. 2e6)
+            lv, lo, hi = draw(st.sampled_from(MANY_DIRECT))
+            lv = list(lv)
+            npts = int(np.prod([2 ** l - 1 for l in lv]))
+            case = _many_samples(draw, len(lv), lo, hi)
+            # 'C' only where the library's matrix equals the Gram matrix (1-D / isotropic) and is cheap to build (<= 64 points)
+            c_ok = len(set(lv)) == 1 and npts <= 64
+            case.update(lam=draw(st.sampled_from([1e-6, 1e-4, 0.1, 1.0, 0.0])),
+                        matrix=draw(st.sampled_from(["I", "I", "C"])) if c_ok else "I")
+            case.update(lv=lv, rng=draw(st.integers(0, 2 ** 20)))
+            return case
+        if pick == 0:        # one case in twenty: a component grid with more than 100 points
             lv = list(draw(st.sampled_from(BIG_LEVELVECTORS)))
             d = len(lv)
             case = draw(_data(d, 20, 60))
@@ -997,7 +1033,16 @@ def train_strategy(tier):
 
     @st.composite
     def s(draw):
-        if draw(st.integers(0, 15)) == 0:
+        pick = draw(st.integers(0, 15))
+        if pick == 1:
+            # one case in sixteen: many samples relative to the largest component grid (m_train*N*d in 3e5 .. 2e6)
+            d, lmin, lmax, lo, hi = draw(st.sampled_from(MANY_TRAIN))
+            case = _many_samples(draw, d, lo, hi)
+            case.update(lam=draw(st.sampled_from([1e-6, 1e-4, 0.1, 1.0, 0.0])), matrix=draw(st.sampled_from(["I", "I", "I", "C"])) if d == 1 and lmax <= 6 else "I")
+            calls = [dict(kind="train", pct=draw(st.sampled_from([0.1, 0.2, 0.3])), lmin=lmin, lmax=lmax, noisy=draw(st.sampled_from([0, 0, 1])))]
+            case.update(calls=calls, rng=draw(st.integers(0, 2 ** 20)))
+            return case
+        if pick == 0:
             # one case in sixteen: a level range whose scheme has a component grid with more than 100 points
             # (build_C_matrix costs ~40 microseconds per pair of basis functions: matrix 'C' only where the scheme stays
             # below ~2 s; 3-D level ranges with such grids cost 3-40 s and are left to uniform_direct's single grids)
@@ -1110,7 +1155,12 @@ def uniform_direct_fixed():
     base = dict(d=2, pts=_LATTICE9, aff=_IDENT2, pin=False, y=[1., 2., 3., 4., 5., 6., 7., 8., 9.], rng=0, all_defaults=True)
     pts = [[((7 * i) % 19 + 1) / 21.0, ((11 * i) % 23 + 1) / 25.0] for i in range(30)]
     big = dict(d=2, pts=pts, pin=False, y=[1.0 + (i % 7) / 2.0 for i in range(30)], rng=0, all_defaults=True)
-    return [  # component grids with more than 100 points, targets in small units, features in unusual units
+    many = dict(aff=_IDENT2, yscale=1.0, yoff=0.0, rng=11, all_defaults=True)
+    G = lambda n, d: dict(n=n, mode="osc", corner=[0] * d, width=0.35, offset=0.0)
+    return [  # many samples relative to the grid: m*N*d = 4.5e5 (2-D, 15x15 points) and 3.2e5 (1-D, 63 points)
+            dict(many, d=2, gen=G(1000, 2), lam=0.1, matrix="I", lv=[4, 4]),
+            dict(many, d=1, aff=[[0.0, 1.0]], gen=G(5000, 1), lam=1e-4, matrix="C", lv=[6]),
+            # component grids with more than 100 points, targets in small units, features in unusual units
             dict(big, aff=[[1e4, 1e-6], [0.0, 1e9]], yscale=1e-9, yoff=0.0, lam=0.1, matrix="I", lv=[4, 3]),
             dict(big, aff=_IDENT2, yscale=1e-12, yoff=1.0, lam=1e-4, matrix="C", lv=[4, 3]),
             dict(big, aff=_IDENT2, yscale=1e6, yoff=0.0, lam=1e-4, matrix="I", lv=[4, 4]),
@@ -1133,7 +1183,10 @@ def train_fixed():
     seq = dict(d=2, pts=pts, aff=_IDENT2, pin=False, y=[1.0 + (i % 7) / 2.0 for i in range(30)], rng=3, all_defaults=True)
     T = lambda lmax, noisy, pct=0.2: dict(kind="train", pct=pct, lmin=1, lmax=lmax, noisy=noisy)
     S = lambda noisy: dict(kind="sa", pct=0.2, margin=0.7, tol=1e-5, maxev=15, noisy=noisy)
-    return [  # schemes with a component grid of more than 100 points ((3,4)/(4,3): 105, (4,4): 225), targets in small units
+    return [  # many samples relative to the grid: 1500 samples, 1020 of them training samples, on the 15x15 grid (m*N*d = 4.6e5)
+            dict(d=2, gen=dict(n=1500, mode="osc", corner=[0, 0], width=0.35, offset=0.0), aff=_IDENT2, yscale=1.0, yoff=0.0, rng=12,
+                 all_defaults=True, lam=0.1, matrix="I", calls=[dict(kind="train", pct=0.2, lmin=4, lmax=4, noisy=0)]),
+            # schemes with a component grid of more than 100 points ((3,4)/(4,3): 105, (4,4): 225), targets in small units
             dict(seq, yscale=1e-9, yoff=0.0, lam=0.1, matrix="I", calls=[T(6, 0)]),
             dict(seq, aff=[[-3e5, 1e5], [2.5, 1e-6]], yscale=1e-12, yoff=0.0, lam=1e-4, matrix="I",
                  calls=[dict(kind="train", pct=0.2, lmin=4, lmax=4, noisy=0)]),
